@@ -68,10 +68,20 @@ def run_cases(cases):
 
 
 def main():
+    import time
+
     payload = json.load(open(sys.argv[1]))
     cases = payload["cases"]
     workers = int(payload.get("workers", 1))
-    if "--worker" in sys.argv or workers <= 1 or len(cases) <= 1:
+    budget = float(payload.get("budget_s", 420))
+    if "--worker" in sys.argv:
+        # one JSON line per finished case, so that a hanging case (an adaptive solve that never terminates) loses only itself
+        with open(sys.argv[2], "w") as f:
+            for c in cases:
+                f.write(json.dumps(run_cases([c])[0]) + "\n")
+                f.flush()
+        return
+    if workers <= 1 or len(cases) <= 1:
         json.dump({"results": run_cases(cases)}, open(sys.argv[2], "w"))
         return
     workers = min(workers, len(cases))
@@ -80,6 +90,7 @@ def main():
     for i, c in enumerate(cases):
         chunks[i % workers].append(i)
     procs = []
+    t0 = time.time()
     for w, idxs in enumerate(chunks):
         if not idxs:
             continue
@@ -90,14 +101,29 @@ def main():
         procs.append((p, idxs, fin, fout))
     results = [None] * len(cases)
     for p, idxs, fin, fout in procs:
-        p.wait()
+        timed_out = False
+        try:
+            p.wait(timeout=max(1.0, budget - (time.time() - t0)))
+        except subprocess.TimeoutExpired:
+            p.kill()
+            p.wait()
+            timed_out = True
         log = open(fin + ".log").read() if os.path.exists(fin + ".log") else ""
-        if p.returncode != 0 or not os.path.exists(fout):
-            for i in idxs:
+        done = []
+        if os.path.exists(fout):
+            for ln in open(fout):
+                try:
+                    done.append(json.loads(ln))
+                except ValueError:
+                    break
+        for k, i in enumerate(idxs):
+            if k < len(done):
+                results[i] = done[k]
+            elif timed_out:
+                results[i] = {"error": "TIMEOUT: the worker was killed after the time budget" + (" (this run did not terminate)" if k == len(done) else " (not started)"),
+                              "timeout": True}
+            else:
                 results[i] = {"error": f"worker crashed (rc={p.returncode})", "tb": (log or "")[-1500:]}
-        else:
-            for i, r in zip(idxs, json.load(open(fout))["results"]):
-                results[i] = r
         for f in (fin, fout, fin + ".log"):
             if os.path.exists(f):
                 os.remove(f)
